@@ -404,6 +404,60 @@ func topLoop(stmts []ast.Stmt) *ast.ForStmt {
 	return found
 }
 
+
+// ctxFact: does netio.ConnWriteContextFunc always call stop() (detach the interruptor from the context)
+// before it returns? Recognised epilogues of its deferred function: `if !stop() && err == nil {…}` (stop() is
+// evaluated unconditionally: true) and `if err != nil && !stop() {…}` (short-circuit: not called after a
+// successful write: false). ss2022.DialStream must use it through netio.ConnWriteContext for the excess payload.
+func ctxFact(n, p *pkg) (bool, error) {
+	var fn *ast.FuncDecl
+	for _, f := range n.files {
+		for _, d := range f.Decls {
+			if fd, ok := d.(*ast.FuncDecl); ok && fd.Recv == nil && fd.Name.Name == "ConnWriteContextFunc" {
+				fn = fd
+			}
+		}
+	}
+	if fn == nil {
+		return false, fmt.Errorf("netio.ConnWriteContextFunc not found")
+	}
+	ds, err := p.Func("*StreamClient", "DialStream")
+	if err != nil {
+		return false, err
+	}
+	if !strings.Contains(p.Src(ds.Body), "if len(excessPayload) > 0 { if _, err = netio.ConnWriteContext(ctx, clientConn, excessPayload); err != nil {") {
+		return false, fmt.Errorf("DialStream no longer writes the excess payload through netio.ConnWriteContext in the recognised way")
+	}
+	var cond string
+	defers := 0
+	for _, st := range fn.Body.List {
+		d, ok := st.(*ast.DeferStmt)
+		if !ok {
+			continue
+		}
+		defers++
+		lit, ok := d.Call.Fun.(*ast.FuncLit)
+		if !ok || len(lit.Body.List) != 1 {
+			return false, fmt.Errorf("ConnWriteContextFunc: unrecognised deferred function: %s", n.Src(d))
+		}
+		ifs, ok := lit.Body.List[0].(*ast.IfStmt)
+		if !ok || ifs.Else != nil || ifs.Init != nil {
+			return false, fmt.Errorf("ConnWriteContextFunc: unrecognised deferred function: %s", n.Src(d))
+		}
+		cond = n.Src(ifs.Cond)
+	}
+	if defers != 1 || !strings.Contains(n.Src(fn.Body), "stop := context.AfterFunc(ctx, func() { _ = c.SetWriteDeadline(conn.ALongTimeAgo) })") {
+		return false, fmt.Errorf("ConnWriteContextFunc: unrecognised body: %s", n.Src(fn.Body))
+	}
+	switch cond {
+	case "!stop() && err == nil":
+		return true, nil
+	case "err != nil && !stop()":
+		return false, nil
+	}
+	return false, fmt.Errorf("ConnWriteContextFunc: unrecognised epilogue condition: %s", cond)
+}
+
 func main() {
 	gen.Main("C01", func(c *gen.Ctx, l *gen.Lean) error {
 		p, err := load(c.Repo, "ss2022")
@@ -485,6 +539,15 @@ func main() {
 			return err
 		}
 		l.BoolDef("serverFirstReadHandlesDataFirst", f8, "the first-chunk loop of ss2022.(*ShadowStreamServerConn).readFromGeneric sends the bytes of a read before it looks at the read's error")
+		nio, err := load(c.Repo, "netio")
+		if err != nil {
+			return err
+		}
+		f9, err := ctxFact(nio, p)
+		if err != nil {
+			return err
+		}
+		l.BoolDef("connWriteContextAlwaysStops", f9, "netio.ConnWriteContextFunc (used by ss2022.DialStream for the excess payload) detaches its interruptor from the context before it returns, also after a successful write")
 		f6, err := copyFact(p, s)
 		if err != nil {
 			return err
